@@ -8,12 +8,12 @@ try:
     for i in range(0, len(triples), 3):
         f, old, new = triples[i:i+3]
         src = open('/repo/'+f).read()
-        assert old in src, (name, f, old)
         os.makedirs(os.path.join(d, 'a', os.path.dirname(f)), exist_ok=True)
         os.makedirs(os.path.join(d, 'b', os.path.dirname(f)), exist_ok=True)
         if not os.path.exists(os.path.join(d,'a',f)):
             open(os.path.join(d,'a',f),'w').write(src); open(os.path.join(d,'b',f),'w').write(src)
         cur = open(os.path.join(d,'b',f)).read()
+        assert old in cur, (name, f, old)
         open(os.path.join(d,'b',f),'w').write(cur.replace(old,new,1))
     out = subprocess.run(['diff','-ruN','a','b'],cwd=d,capture_output=True,text=True).stdout
     open(os.path.join(os.path.dirname(os.path.abspath(__file__)),'mutants',name+'.patch'),'w').write(out)
